@@ -171,7 +171,14 @@ def frag_tree(r, d=0):
     """trees of the fragment of compile_correct: numbers, binary / unary operators, ternary, || and &&"""
     k = r.random()
     if d >= 4 or k < 0.22:
-        return ("i", r.choice([0, 1, 2, 3, 7, 10, 100]))
+        j = r.random()
+        if j < 0.7:
+            return ("i", r.choice([0, 1, 2, 3, 7, 10, 100]))
+        if j < 0.8:
+            return ("f", r.choice([0.5, 1.5, 2.0, 10.25, 0.0]))
+        if j < 0.93:
+            return ("s", r.choice(["", "a", "ab", "力", "7", "x y"]))
+        return ("n",)
     if k < 0.30:
         return ("var", r.choice(FRAG_VARS))
     if k < 0.36:
@@ -180,7 +187,7 @@ def frag_tree(r, d=0):
         op = r.choice(["add", "sub", "mul", "div", "mod", "pow", "nullCoalescing", "comp.lt", "comp.le", "comp.eq", "comp.ne", "comp.ge", "comp.gt", "&", "|"])
         return ("bin", op, frag_tree(r, d + 1), frag_tree(r, d + 1))
     if k < 0.68:
-        return ("neg", frag_tree(r, d + 1))
+        return ("neg", frag_tree(r, d + 1)) if r.random() < 0.75 else ("pos", frag_tree(r, d + 1))
     if k < 0.8:
         return ("tern", frag_tree(r, d + 1), frag_tree(r, d + 1), frag_tree(r, d + 1))
     if k < 0.9:
